@@ -525,7 +525,7 @@ pub static C13: PropDef = PropDef {
         "SIGPIPE is ignored in the probe (as in every Rust binary); the harness keeps read ends open",
         "one empty probe datagram per dgram/seqpacket registration is documented behaviour",
     ],
-    cases: (500, 6000),
+    cases: (500, 15_000),
     shrink_iters: 150,
     worker,
     replay,
